@@ -1,0 +1,101 @@
+//go:build verif
+// +build verif
+
+package hotkey
+
+import "time"
+
+// This file is only compiled with -tags verif. Introspection of the counter and
+// collector for the verification harness under /verif; it adds no behaviour.
+
+// VerifFreq is one frequency node of a counter: its frequency and its keys in list order.
+type VerifFreq struct {
+	Freq uint64
+	Keys []string
+}
+
+// VerifDump walks the counter's structure. problems lists broken structural links.
+func (c *Counter) VerifDump() (freqs []VerifFreq, items map[string]uint64, problems []string) {
+	c.mu.Lock()
+	defer c.mu.Unlock()
+	items = make(map[string]uint64, len(c.items))
+	for k, it := range c.items {
+		if it.freqNode == nil {
+			problems = append(problems, "item "+k+" has nil freqNode")
+			continue
+		}
+		if it.key != k {
+			problems = append(problems, "item key mismatch "+k+" vs "+it.key)
+		}
+		items[k] = it.freqNode.freq
+	}
+	if c.freqHead != nil && c.freqHead.prev != nil {
+		problems = append(problems, "freqHead.prev != nil")
+	}
+	var prevF *freqNode
+	steps := 0
+	for f := c.freqHead; f != nil; f = f.next {
+		steps++
+		if steps > 100000 {
+			problems = append(problems, "freq list cycle")
+			break
+		}
+		if f.prev != prevF {
+			problems = append(problems, "freq prev link broken")
+		}
+		vf := VerifFreq{Freq: f.freq}
+		var prevI *itemNode
+		isteps := 0
+		for it := f.itemHead; it != nil; it = it.next {
+			isteps++
+			if isteps > 100000 {
+				problems = append(problems, "item list cycle")
+				break
+			}
+			if it.prev != prevI {
+				problems = append(problems, "item prev link broken at "+it.key)
+			}
+			if it.freqNode != f {
+				problems = append(problems, "item back-pointer wrong at "+it.key)
+			}
+			vf.Keys = append(vf.Keys, it.key)
+			prevI = it
+		}
+		if f.itemTail != prevI {
+			problems = append(problems, "itemTail wrong")
+		}
+		freqs = append(freqs, vf)
+		prevF = f
+	}
+	return
+}
+
+// VerifCapacity returns the counter capacity.
+func (c *Counter) VerifCapacity() int { return int(c.capacity) }
+
+// VerifNewCollector creates a collector with explicit intervals.
+func VerifNewCollector(capacity uint8, collectInterval, evictInterval time.Duration) *Collector {
+	return NewCollector(capacity, withCollectInterval(collectInterval), withEvictInterval(evictInterval))
+}
+
+// VerifCollect runs one collection round.
+func (c *Collector) VerifCollect() { c.collect() }
+
+// VerifEvictStale runs one eviction round.
+func (c *Collector) VerifEvictStale() { c.evictStale() }
+
+// VerifSetNow overrides the minute clock (nil restores) and returns the previous function.
+func VerifSetNow(f func() int64) func() int64 {
+	old := nowInMinute
+	if f != nil {
+		nowInMinute = f
+	}
+	return old
+}
+
+// VerifSetIntervals overrides the default collect/evict intervals used by NewCollector.
+func VerifSetIntervals(collect, evict time.Duration) (time.Duration, time.Duration) {
+	oc, oe := defaultCollectInterval, defaultEvictInterval
+	defaultCollectInterval, defaultEvictInterval = collect, evict
+	return oc, oe
+}
